@@ -260,7 +260,7 @@ def make_judge(chk: Check):
                         want_names = [nm.names_ref(x) for x in want_names]
                     if len(got) == len(exp) and [r.name for r in d.results] != want_names:
                         viols.append(Viol("result-names", f"{where}:{'docstring' if g['names'] else 'default'}", {"decl": d.path(), "expected": want_names, "stub": [r.name for r in d.results]}))
-                    chk.case_ok(f"{where}:{'named' if g['names'] else 'unnamed'}:{g['anno'].split('[')[0]}")
+                    chk.case_ok(f"{where}:{'named' if g['names'] else 'unnamed'}:{g['anno'].split('[')[0]}", ident=(case.cid, d.path()))
                 elif g["kind"] == "no-results":
                     if d.results:
                         viols.append(Viol("results-without-inferable-return", "no-results", {"decl": d.path(), "stub": [r.type.render() if r.type else None for r in d.results]}))
@@ -286,7 +286,7 @@ def make_judge(chk: Check):
                         want_names = [nm.names_ref(x) for x in want_names]
                     if [r.name for r in d.results] != want_names:
                         viols.append(Viol("result-names", f"{where}:default", {"decl": d.path(), "expected": want_names, "stub": [r.name for r in d.results]}))
-                    chk.case_ok(f"{where}:{'+'.join(g['features'])[:60]}")
+                    chk.case_ok(f"{where}:{'+'.join(g['features'])[:60]}", ident=(case.cid, d.path()))
                     if len(pos) >= 2:
                         chk.sample({"source": g["src"][:400], "stub_results": [(r.name, r.type.render() if r.type else None) for r in d.results]}, limit=3)
         return viols
